@@ -81,3 +81,41 @@ Definition spec (c : case) : bool :=
                end)
   | Err _ => true
   end.
+
+(** * Adjusted judgements (attribution only) *)
+Definition obs_for_spec (c : case) : result (list C19Spec.brecord * option err) :=
+  match c_obs c with
+  | Ok (orecs, oer) =>
+      Ok (map (fun r : orec => let '(t, v0, outs, v1) := r in (t, dict_of v0, outs, dict_of v1)) orecs, oer)
+  | Err e => Err e
+  end.
+
+(** F-C19: calls without a name (pre/post tasks, the implicitly chosen
+    default task) are judged against the root collection's configuration *)
+Definition paths_fc19 (c : case) (s : coll) (recs : list C19Spec.brecord) : list (option (list dict)) :=
+  let calls := session_calls (c_reqs c) (c_dflt c) (c_dedupe c) in
+  (fix go (rs : list C19Spec.brecord) (cs : list ecall) : list (option (list dict)) :=
+     match rs, cs with
+     | r :: rs', (_, called_as) :: cs' =>
+         (match called_as with
+          | None => Some [c_config s]
+          | Some _ => home s (fst (fst (fst r)))
+          end) :: go rs' cs'
+     | r :: rs', [] => home s (fst (fst (fst r))) :: go rs' []
+     | [], _ => []
+     end) recs calls.
+
+Definition adj (mw fc19 : bool) (c : case) : bool :=
+  match c_state c with
+  | Ok s =>
+      spec_gen mw (if fc19 then paths_fc19 c s
+                   else map (fun r : C19Spec.brecord => home s (fst (fst (fst r)))))
+               s (i_defaults (c_init c)) (i_overrides (c_init c)) (body_of (c_bodies c)) (c_envs c)
+               (obs_for_spec c)
+  | Err _ => true
+  end.
+
+Definition adj_fc19 (c : case) : bool := adj false true c.
+(** F-C06a: a dict-valued write is merged, not a replacement *)
+Definition adj_fc06a (c : case) : bool := adj true false c.
+Definition adj_both (c : case) : bool := adj true true c.
